@@ -28,8 +28,7 @@ def trace_task(seed):
     if not finite and (h["iter_calls"]["burnin"] != k * o["burnin"] or any(m != o["num_iters"] for m in by_chain.values())):
         problems.append(({"sub": "stopped_early_without_time_limit"}, "executed %r / %r iterations with no time limit (burn-in %d, iterations %d, chains %d)" % (
             h["iter_calls"], by_chain, o["burnin"], o["num_iters"], k)))
-    start = [i for i in (spec["schedule"].get("start_order") or range(k)) if i < k] if k > 1 else [0]
-    post = {ch: h["post_burnin"][j] for j, ch in enumerate(start) if j < len(h["post_burnin"])}
+    post = {ch: cn for ch, cn in h["post_burnin"]}
     for ch, res in sorted(h["results"].items()):
         data = res["data"]
         n = len(data)
